@@ -291,6 +291,73 @@ impl Monitor for Mon {
             }
             prev = *x;
         }
+        // --- per-identity accounting across renewals inside one call: every Rejoin needs its own cause
+        // (Down / TurnUndead / unrefutable suspicion about the identity held at that moment), and the
+        // identity the call ends with carries exactly the incarnation its own suspicions justify
+        if (d.processed || tu) && rec.res.is_ok() && matches!(rec.call, Call::Data(_) | Call::ApplyMany(..)) {
+            let mut cur = rec.before.identity;
+            let mut cur_inc = inc0;
+            let mut alive = !was_defunct;
+            let mut used = 0usize;
+            let mut causes: Vec<String> = Vec::new();
+            let mut on_cause = |what: String, cur: &mut Id, cur_inc: &mut u16, alive: &mut bool, used: &mut usize| {
+                causes.push(what);
+                if *used < rejoined.len() {
+                    *cur = rejoined[*used];
+                    *used += 1;
+                    *cur_inc = 0;
+                } else {
+                    *alive = false;
+                }
+            };
+            if tu && alive {
+                on_cause(format!("TurnUndead to {cur}"), &mut cur, &mut cur_inc, &mut alive, &mut used);
+            }
+            for u in &d.updates {
+                if !alive {
+                    break;
+                }
+                if *u.id() != cur {
+                    continue;
+                }
+                let cause = match u.state() {
+                    State::Down => true,
+                    State::Suspect => {
+                        if u.incarnation() >= cur_inc {
+                            if u.incarnation() == u16::MAX {
+                                true
+                            } else {
+                                cur_inc = u.incarnation() + 1;
+                                false
+                            }
+                        } else {
+                            false
+                        }
+                    }
+                    State::Alive => false,
+                };
+                if cause {
+                    on_cause(format!("{:?}({}, {})", u.state(), u.id(), u.incarnation()), &mut cur, &mut cur_inc, &mut alive, &mut used);
+                }
+            }
+            ensure!(
+                used == rejoined.len(),
+                "C10:renewed-without-cause",
+                "the call notified {} renewals {:?} but only {} of them have a cause (a Down / TurnUndead / unrefutable suspicion about the identity held at that moment): causes {:?}",
+                rejoined.len(),
+                rejoined,
+                used,
+                causes
+            );
+            if alive && rec.after.conn() != 2 && !rejoined.is_empty() {
+                ensure!(
+                    inc1 == cur_inc,
+                    "C10:renewed-identity-incarnation",
+                    "the call ends with identity {} at incarnation {inc1}; the suspicions about that identity delivered after it was adopted justify {cur_inc} (each identity starts at 0 and grows only on suspicions about itself)",
+                    rec.after.identity
+                );
+            }
+        }
         let learned_down = (d.processed && self_down) || tu;
         if learned_down && rec.res.is_ok() && !was_defunct {
             self.trace.push(2);
@@ -370,7 +437,7 @@ pub fn run(ctx: &Ctx, report: &mut Report) -> EvidenceMeta {
     ctx.run_part(&part(), report);
     EvidenceMeta {
         level: "exploration",
-        rule: "proptest random single-instance histories biased to updates about the instance itself (Suspect/Down/Alive at incarnations lower/equal/higher/MAX-1/MAX through update sections, apply_many and TurnUndead), identities that renew / do not / renew to the same or a losing identity, interleaved with sends of every kind, change_identity, reuse_down_identity, leave_cluster. Oracle: own incarnation (hook snapshot at call boundaries + every outgoing header) never decreases within an identity, grows only by the statement's rule max(own,suspected)+1 for suspicions >= own, equals that value when the suspicion was processed; every outgoing member entry about another identity carries an incarnation <= the highest ever input for it; a processed Down/TurnUndead about the current identity ends in Rejoin(winning, different identity, Down(old) queued and gossiped/pending) or Defunct; a Defunct instance neither raises its incarnation nor sends anything but TurnUndead replies on its own. Non-trivial: a refutation followed by a later send, a MAX-boundary event, or a failed renew."
+        rule: "proptest random single-instance histories biased to updates about the instance itself (Suspect/Down/Alive at incarnations lower/equal/higher/MAX-1/MAX through update sections, apply_many and TurnUndead), identities that renew / do not / renew to the same or a losing identity, interleaved with sends of every kind, change_identity, reuse_down_identity, leave_cluster. Oracle: own incarnation (hook snapshot at call boundaries + every outgoing header) never decreases within an identity, grows only by the statement's rule max(own,suspected)+1 for suspicions >= own, equals that value when the suspicion was processed; every outgoing member entry about another identity carries an incarnation <= the highest ever input for it; every Rejoin inside a call has its own cause (Down / TurnUndead / suspicion at MAX not below the own incarnation, about the identity held at that moment; later entries of the same batch about the superseded identity are no cause) and the identity the call ends with carries exactly the incarnation justified by suspicions about itself; a processed Down/TurnUndead about the current identity ends in Rejoin(winning, different identity, Down(old) queued and gossiped/pending) or Defunct; a Defunct instance neither raises its incarnation nor sends anything but TurnUndead replies on its own. Non-trivial: a refutation followed by a later send, a MAX-boundary event, or a failed renew."
             .into(),
         assumptions: vec![
             "own incarnation at call boundaries is read through the verif-hooks snapshot and cross-checked against every outgoing header".into(),
